@@ -262,7 +262,7 @@ func c12RejectedListenerUpdateHasNoEffect(c *Ctx) {
 	}
 	sort.Slice(rets, func(i, j int) bool { return nearestPos(rets[i]) < nearestPos(rets[j]) })
 	for _, ret := range rets {
-		if len(ret.Results) != 2 || isNilConst(ret.Results[1]) {
+		if len(ret.Results) != 2 || isNilConst(unspill(ret, 1)) {
 			continue
 		}
 		// only error returns taken for an existing listener: guarded by `existing != nil`
@@ -279,9 +279,9 @@ func c12RejectedListenerUpdateHasNoEffect(c *Ctx) {
 		}
 		n++
 		origin := "error"
-		if call, ok := stripIface(ret.Results[1]).(*ssa.Call); ok {
+		if call, ok := stripIface(unspill(ret, 1)).(*ssa.Call); ok {
 			origin = calleeName(call.Common())
-		} else if ex, ok := ret.Results[1].(*ssa.Extract); ok {
+		} else if ex, ok := unspill(ret, 1).(*ssa.Extract); ok {
 			if call, ok := ex.Tuple.(*ssa.Call); ok {
 				origin = calleeName(call.Common())
 			}
@@ -1092,7 +1092,7 @@ func c20RawSectionsRedacted(c *Ctx) {
 				}
 				leaves = append(leaves, v)
 			}
-			collect(in.(*ssa.Return).Results[0])
+			collect(unspill(in.(*ssa.Return), 0))
 			for _, l := range leaves {
 				l = stripIface(l)
 				if isExtendSlice(l.Type()) {
@@ -1390,7 +1390,7 @@ func c18EmptyHeaderFragmentAccepted(c *Ctx) {
 				}
 				any = true
 				r := in.(*ssa.Return)
-				e := stripIface(r.Results[len(r.Results)-1])
+				e := stripIface(unspill(r, len(r.Results)-1))
 				call, isCall := e.(*ssa.Call)
 				if !isCall || methodName(call.Common()) != "streamError" {
 					only = false
@@ -1514,7 +1514,7 @@ func c08StreamErrorConsumesItsFrame(c *Ctx) {
 	seenKey := map[string]bool{}
 	for _, in := range instrsWhere(fn, isReturn) {
 		ret := in.(*ssa.Return)
-		e := ret.Results[len(ret.Results)-1]
+		e := unspill(ret, len(ret.Results)-1)
 		ex, ok := e.(*ssa.Extract)
 		if !ok {
 			continue
@@ -1960,7 +1960,7 @@ func c13PlaintextOnlyWithoutTLSOrWithInspector(c *Ctx) {
 	var badAt token.Pos
 	bad := feasibleState(fn, classify, func(b *ssa.BasicBlock, a1, a2 int8) bool {
 		ret, ok := b.Instrs[len(b.Instrs)-1].(*ssa.Return)
-		if !ok || len(ret.Results) != 2 || ret.Results[0] != param {
+		if !ok || len(ret.Results) != 2 || unspill(ret, 0) != param {
 			return false
 		}
 		// the non-TCP passthrough (TLS is TCP only on both sides) is by design
@@ -2283,7 +2283,7 @@ func c01ThriftOnewayIsARequest(c *Ctx) {
 	ow := false
 	owVal, okOW := pkgConstOf(gst, "mosn.io/api", "RequestOneWay")
 	for _, in := range instrsWhere(gst, isReturn) {
-		if k, isK := constInt(in.(*ssa.Return).Results[0]); isK && okOW && k == owVal {
+		if k, isK := constInt(unspill(in.(*ssa.Return), 0)); isK && okOW && k == owVal {
 			ow = true
 		}
 	}
